@@ -30,6 +30,7 @@ def run(ctx):
     rounds = 2 if ctx.tier == "quick" else 8
     produced = []      # (VCase for verification by model+impl, expectation)
     model_lines, model_meta = [], []
+    _batch = []
     for _ in range(rounds):
         for alg in J.ALL_ALGS:
             for kn in (J.ALG_KEYS[alg] if ctx.tier == "thorough" else J.ALG_KEYS[alg][:2]):
@@ -107,7 +108,8 @@ def run(ctx):
                         if got != exp:
                             return f"verification returned header members {got} different from the ones given {exp}"
                         return None
-                    J.run_verify_cases(ctx, "roundtrip-impl-signs", [vc], check_c01=True, expect=expect, prop="C03")
+                    vc.expect = expect
+                    _batch.append(vc)
                     # ---- detach / restore
                     detach(ctx, kind, value, pkarg, payload)
                     # ---- the model signs the same request
@@ -116,6 +118,7 @@ def run(ctx):
                         model_meta.append((kind, pkarg, payload, note, prot, unprot))
                     except wire.Unencodable:
                         pass
+    J.run_verify_cases(ctx, "roundtrip-impl-signs", _batch, check_c01=True, prop="C03")
     if ctx.driver_ok and model_lines:
         refprims.CHOICE_TAPE[:] = []
         answers = model_eval(model_lines)
